@@ -79,6 +79,9 @@ def scenario(cls, life, seed):
         ops += [J(1, 0, 40), dict(op="barrier", c=1), R(1, k="EntityAdd", rid=41, persist=False, flag=0, px=1, ts=41),
                 R(1, k="Pose", eid=1, px=5, ts=42), R(1, k="Pose", eid=7, px=5, ts=43), dict(op="barrier", c=1), dict(op="barrier", c=2)]
     fops, kind = fault_ops(cls, seed)
+    if life == "switched":
+        # an update is parked in the victim's scheduler at the very moment of the fault (frames are slow here)
+        fops = [R(1, k="Pose", eid=1, px=6, ts=44)] + fops
     if cls in ("idle", "chatty"):
         # the witnesses must not idle out themselves: they keep pinging through barriers below
         pass
@@ -98,9 +101,9 @@ def scenario(cls, life, seed):
         ops += [dict(op="barrier", c=1, ms=3000)]
     ops += [dict(op="barrier", c=2 if life in ("full", "switched") else 3, ms=3000), dict(op="barrier", c=3, ms=3000)]
     if life in ("full", "switched"):
-        ops += [dict(op="sleep", ms=30), dict(op="barrier", c=2, ms=3000)]
+        ops += [dict(op="sleep", ms=(150 if life == "switched" else 30)), dict(op="barrier", c=2, ms=3000)]
     return dict(sid="%s/%s/%d" % (cls, life, seed), cls=cls, life=life, fatal=fatal,
-                config=dict(mods=MODS, idle_ms=idle, frame_ms=2), ops=ops)
+                config=dict(mods=MODS, idle_ms=idle, frame_ms=(60 if life == "switched" else 2)), ops=ops)
 
 
 def judge(sc, r):
